@@ -36,11 +36,19 @@ def _timed(name, fn, *a, **k):
     return r
 
 
+# cost of one case, in worker start-ups' worth: a worker process imports the whole compiler
+# (seconds), one _exec_input call costs 0.2 ms, one compiled program 0.2 s, one model job ~1 ms.
+# Small batches therefore use few processes.
+PER_WORKER = {'inputfn.exec_input': 2500, 'numfmt.op': 30000, 'inputfn.run_prog': 8}
+
+
 def run_impl(fn, cases, **k):
+    k.setdefault('par', max(1, min(vlib.NPROC, len(cases) // PER_WORKER.get(fn, 32))))
     return _timed('impl ' + fn, _run_impl, fn, cases, **k)
 
 
 def run_model(exe, jobs, **k):
+    k.setdefault('par', max(1, min(vlib.NPROC, len(jobs) // 400)))
     return _timed('model ' + os.path.basename(os.path.dirname(exe)), _run_model, exe, jobs, **k)
 
 PROP = 'C18'
@@ -652,7 +660,7 @@ def gen_programs(ctx, reps, quick):
             core2.append((SHAPES[i % 3], bool(i & 1), FORMS[i % len(FORMS)], list(zip(kinds, tys)),
                           [bad, pool[j % 2]]))
     # sample: seeded
-    nrand = 600
+    nrand = 300
     samp = []
     rng = ctx.rng
     tups = list(type_tuples(3))
@@ -666,7 +674,7 @@ def gen_programs(ctx, reps, quick):
         kinds = [rng.choice(KINDS) for _ in tys]
         samp.append((rng.choice(SHAPES), rng.random() < 0.5, rng.choice(FORMS), list(zip(kinds, tys)), hist))
     if quick:
-        return core1[::6] + core2[::5] + samp[:25]
+        return core1[::8] + core2[::6] + samp[:20]
     return core1 + core2 + samp
 
 
@@ -701,7 +709,10 @@ def run_compiled(ctx, orc, exe, exe_num, reps, quick):
     cases = []
     for pi, (shape, sl, form, targets, hist) in enumerate(progs):
         src, stmt = build_prog(shape, sl, form, targets)
-        cfgs = CONFIGS if (not quick or pi % 3 == 0) else [CONFIGS[pi % 6], CONFIGS[(pi + 3) % 6]]
+        # all six configurations for a third of the programs, two (one per debug setting,
+        # different levels) for the others; chosen by a hash of the program, not by the tier
+        x = h(['cfg', src, hist])
+        cfgs = CONFIGS if x % 3 == 0 else [CONFIGS[(x >> 4) % 6], CONFIGS[((x >> 4) + 3) % 6]]
         for lv, dbg in cfgs:
             cases.append({'src': src, 'stmt': stmt, 'shape': shape, 'sl': sl, 'form': form,
                           'tys': [t for _, t in targets], 'kinds': [k for k, _ in targets],
@@ -725,7 +736,7 @@ def run_compiled(ctx, orc, exe, exe_num, reps, quick):
         if i in refidx:
             pos_ref[i] = len(order)
             order.append(refcases[refidx[i]])
-    allraws = run_impl('inputfn.run_prog', order)
+    allraws = run_impl('inputfn.run_prog', order, timeout=3000)
     raws = [allraws[pos_case[i]] for i in range(len(cases))]
     refs = [None] * len(refcases)
     for i, j in refidx.items():
@@ -757,7 +768,7 @@ def run_compiled(ctx, orc, exe, exe_num, reps, quick):
     ctx.rule.append(f'compiled: {len(progs)} programs (core: 1 target of every kind scalar/array element/record '
                     f'field/element-of-record-array x type x 6 prompt forms x leading ";", every type pair and a '
                     f'fifth of the triples x every pool rejection; + seeded sample) in shapes main / SUB / GOSUB, '
-                    f'compiled at levels 0,1,2 x debug on/off and run on the real machine; CLS probes give the '
+                    f'compiled at levels 0,1,2 x debug on/off (all six for a third of the programs, two for the others) and run on the real machine; CLS probes give the '
                     f'operand stack depth before and after the statement; each history with a rejection is also '
                     f'compared with the run answered by the accepted line alone')
     if cases:
@@ -769,25 +780,33 @@ def desc_prog(c):
 
 
 def judge_compiled(ctx, orc, fmt, c, raw, ref, enc):
-    """None or (signature, why, found_input)"""
+    """None or (signature, why, found_input).  The events between the first and
+    the second CLS probe are the INPUT statement; what follows the second probe is
+    the continuation."""
     if 'exc' in raw:
         return (f"C18/compiled-host-exception({raw['exc']},{raw.get('where')})", raw.get('msg'), True)
     tys, lines = c['tys'], c['lines']
     spec = orc.spec_run(c['sl'], c['form'], tys, lines)
     evs = raw['events']
-    probes = [e[1] for e in evs if e[0] == 'terminal_cls']
-    ios = [e for e in evs if e[0] in ('terminal_print', 'terminal_input')]
+    cls_at = [i for i, e in enumerate(evs) if e[0] == 'terminal_cls']
     # 1. the argument protocol: what the compiled code pushed = encode_input
-    if not raw['at_io'] or not probes:
+    if not raw['at_io'] or not cls_at:
         return ('C18/compiled-no-input-executed', None, True)
-    pushed = raw['at_io'][0][probes[0]:]
+    depth0 = evs[cls_at[0]][1]
+    pushed = raw['at_io'][0][depth0:]
     if pushed != enc:
         return ('C18/gen_input-differs-from-encode_input', {'pushed': pushed, 'model': enc}, False)
+    done = len(cls_at) >= 2            # the statement completed: the probe after it was reached
+    stmt_evs = evs[cls_at[0] + 1:cls_at[1]] if done else evs[cls_at[0] + 1:]
+    rest_evs = evs[cls_at[1] + 1:] if done else []
+    if any(e[0] not in ('terminal_print', 'terminal_input') for e in stmt_evs):
+        return ('C18/unexpected-device-call-in-statement', None, True)
     # 2. decisions
-    consumed = [l2s(e[2]) for e in ios if e[0] == 'terminal_input']
+    consumed = [l2s(e[2]) for e in stmt_evs if e[0] == 'terminal_input']
     if consumed != list(lines[:len(consumed)]):
         return ('C18/lines-not-read-in-order', None, True)
-    done = raw['status'] != 'exhausted'
+    if not done and raw['status'] != 'exhausted':
+        return ('C18/statement-does-not-complete', [raw['status'], raw['outcome'], raw.get('host_exc')], True)
     for i, line in enumerate(consumed):
         impl_acc = done and i == len(consumed) - 1
         strict = orc.accept(1, list(tys), line)
@@ -795,7 +814,7 @@ def judge_compiled(ctx, orc, fmt, c, raw, ref, enc):
             return (classify_accept(orc, tys, line), f'line {line!r} accepted', True)
         if not impl_acc and strict is not None:
             return (f'C18/rejects-wellformed-line(types={"".join(SUFFIX[t] for t in tys)})', line, True)
-    nev = norm_events(ios)
+    nev = norm_events(stmt_evs)
     if spec[0] == 1:
         if done:
             return ('C18/accepts-after-history-spec-rejects', None, True)
@@ -804,25 +823,31 @@ def judge_compiled(ctx, orc, fmt, c, raw, ref, enc):
         return None
     if not done:
         return ('C18/stops-reading-lines', None, True)
-    # 3. texts up to the accepted line, then the printed values
+    # 3. texts of the statement, then the values the continuation prints
+    if nev != spec[1]:
+        return ('C18/shown-text-differs', {'impl': nev, 'spec': spec[1]}, True)
     vals = spec[2]
     cont = expected_print(fmt, vals)
-    want = spec[1][:-1]
-    if nev[:len(want)] != want:
-        return ('C18/shown-text-differs', {'impl': nev[:len(want)], 'spec': want}, True)
-    tail = nev[len(want):]
-    after = tail[0][1] if tail and tail[0][0] == 0 else None
-    if after is None or after[:len(cont)] != cont:
-        return ('C18/assigned-values-differ', {'printed': l2s(after or []), 'expected': l2s(cont)}, True)
+    after = []
+    for e in rest_evs:
+        if e[0] != 'terminal_print':
+            break
+        after += e[1]
+    if after[:len(cont)] != cont:
+        return ('C18/assigned-values-differ', {'printed': l2s(after), 'expected': l2s(cont)}, True)
     # 4. nothing left behind: stack depth, normal end, same final state as the accepted line alone
     symptoms = []
-    if len(probes) < 2 or probes[1] != probes[0]:
-        symptoms.append(f'operand stack depth {probes[0]} before, {probes[1:2]} after the statement')
+    depth1 = evs[cls_at[1]][1]
+    if depth1 != depth0:
+        symptoms.append(f'operand stack depth {depth0} before, {depth1} after the statement')
     if raw['outcome'][1] is not None or raw['status'] != 'halt':
         symptoms.append(f"program ended with {raw['outcome']} ({raw['status']}"
                         f"{' ' + str(raw['host_exc']) if raw.get('host_exc') else ''})")
     if after[len(cont):] != [101, 110, 100, 13, 10]:
         symptoms.append(f'continuation printed {l2s(after[len(cont):])!r} instead of "end"')
+    if any(e[0] != 'terminal_print' for e in rest_evs):
+        symptoms.append('the program went on to ' + ', '.join(
+            sorted(set(e[0] for e in rest_evs if e[0] != 'terminal_print'))) + ' after its last statement')
     if ref is not None:
         if 'exc' in ref:
             symptoms.append('reference run raised ' + ref['exc'])
